@@ -94,6 +94,11 @@ def run_case(contract, case, known_classes_disabled=False):
     exo = dict(contract.explorer)
     if os.environ.get('VERIF_TIER') == 'thorough':
         exo.setdefault('prove_timeout_ms', 120000)
+    if os.environ.get('PYVC_TEST_TIMEOUT_MS') and TIMEOUT_SCALE == 1:   # development: provoke the retry pass
+        exo['branch_timeout_ms'] = exo['prove_timeout_ms'] = int(os.environ['PYVC_TEST_TIMEOUT_MS'])
+    elif TIMEOUT_SCALE != 1:
+        exo['branch_timeout_ms'] = exo.get('branch_timeout_ms', 10000) * TIMEOUT_SCALE
+        exo['prove_timeout_ms'] = exo.get('prove_timeout_ms', 30000) * TIMEOUT_SCALE
     ex = Explorer(**exo)
     dropped = {}
     hs = []
@@ -282,10 +287,40 @@ def collect(prop, tier):
     return cons, jobs
 
 
+TIMEOUT_SCALE = 1
+
+
+def _is_undecided_only(r):
+    und = any(e['kind'] != 'crash' for e in r.get('errors', [])) or any(ob['undecided'] for ob in r['obligations'].values())
+    bad = any(e['kind'] == 'crash' for e in r.get('errors', [])) or any(ob['failures'] for ob in r['obligations'].values())
+    return und and not bad
+
+
+def _worker_retry(job):
+    global TIMEOUT_SCALE
+    TIMEOUT_SCALE = 4
+    try:
+        return _worker(job)
+    finally:
+        TIMEOUT_SCALE = 1
+
+
 def run_jobs(jobs, nproc=None):
     nproc = nproc or int(os.environ.get('VERIF_JOBS', '0')) or min(16, os.cpu_count() or 4)
     if len(jobs) <= 1 or nproc == 1:
-        return [_worker(j) for j in jobs]
-    ctx = mp.get_context('fork')
-    with ctx.Pool(nproc, maxtasksperchild=20) as pool:
-        return pool.map(_worker, jobs, chunksize=1)
+        results = [_worker(j) for j in jobs]
+    else:
+        ctx = mp.get_context('fork')
+        with ctx.Pool(nproc, maxtasksperchild=20) as pool:
+            results = pool.map(_worker, jobs, chunksize=1)
+    # a solver time-out is load dependent: cases whose only problem is an undecided obligation are re-run once, with
+    # four times the solver budget and little parallelism, before the verdict is reported (never turns a refutation green)
+    redo = [i for i, r in enumerate(results) if _is_undecided_only(r)]
+    if redo and os.environ.get('PYVC_NO_RETRY') != '1':
+        ctx = mp.get_context('fork')
+        with ctx.Pool(min(4, len(redo)), maxtasksperchild=1) as pool:
+            again = pool.map(_worker_retry, [jobs[i] for i in redo], chunksize=1)
+        for i, r in zip(redo, again):
+            r['retried'] = True
+            results[i] = r
+    return results
